@@ -674,3 +674,143 @@ def o_c05(run):
             if is_err:
                 out.append(fail('C05: later requests are served normally', r, f'no fault was hit but the answer is {shown}'))
     return out
+
+# --------------------------------------------------------------------------------------------- C03 (controlled schedules)
+
+def _names_from_dump(d):
+    """version id -> canonical name (its payload), plus structure"""
+    names = {NIL: 'nil'}
+    vers = {}
+    for probe, v in d['V'].items():
+        vers[v[0]] = (v[1], v[2])
+        names[v[0]] = 'v[' + v[2] + ']'
+    return names, vers
+
+def _state_sig(dstr):
+    d = parse_dump(dstr.replace(';', ' '))
+    if d is None:
+        return ('nodump',), {}, {}
+    names, vers = _names_from_dump(d)
+    ids = set(vers)
+    bases = [p for (p, _) in vers.values() if p not in ids]
+    # chain walk from the base(s)
+    chain = []
+    children = collections.defaultdict(list)
+    for vid, (p, pl) in vers.items():
+        children[p].append(vid)
+    double = [p for p, c in children.items() if len(c) > 1]
+    start = None
+    roots = sorted(set(bases))
+    orphans = []
+    if len(roots) >= 1:
+        # the chain the latest pointer sits on
+        cur = d['latest']
+        seen = []
+        while cur in vers and cur not in seen:
+            seen.append(cur)
+            cur = vers[cur][0]
+        chain = list(reversed(seen))
+        orphans = sorted(names[v] for v in vers if v not in chain)
+    nm = lambda x: names.get(x, 'base' if x in roots else ('none' if x in (None, 'none') else 'other'))
+    snap = None
+    if d['snap']:
+        snap = (nm(d['snap'][0]), d['snap'][2], d['data'])
+    sig = (nm(d['latest']), tuple(names[v] for v in chain), tuple(orphans), snap, d['latest'] == 'none')
+    return sig, names, {'double': double, 'vers': vers, 'chain': chain}
+
+def _canon_resp(kind, obs, names):
+    if obs is None:
+        return ('missing',)
+    st = obs.get('status')
+    nm = lambda x: names.get(x, 'id?')
+    if st == 'panic':
+        return ('panic',)
+    if kind == 'av':
+        if st == 200: return (200, 'accepted', obs.get('sr'))
+        if st == 409: return (409, nm(obs.get('pvid')))
+    if kind == 'gcv':
+        if st == 200: return (200, nm(obs.get('vid')), nm(obs.get('pvid')), blob_key(obs.get('body', '-')))
+    if kind == 'gs':
+        if st == 200: return (200, nm(obs.get('vid')), blob_key(obs.get('body', '-')))
+    return (st,)
+
+def o_c03(run):
+    out = []
+    if run.kv.get('conc') != '1':
+        return out
+    reqs, res, evs, seqs, dump, illegal = {}, {}, [], [], None, []
+    first = None
+    for r in run.recs:
+        k = r.ws[0]
+        if first is None:
+            first = r
+        if k == 'req':
+            kind = 'other'
+            for name, rx in HTTP_ROUTES:
+                if len(r.ws) > 4 and rx.match(r.ws[4]):
+                    kind = {'add-version': 'av', 'get-child-version': 'gcv', 'add-snapshot': 'as', 'snapshot': 'gs'}[name]
+            reqs[int(r.ws[1])] = (kind, r)
+        elif k == 'res':
+            res[int(r.ws[1])] = parse_http_obs(r.impl)
+        elif k == 'ev':
+            evs.append((int(r.ws[1]), r.ws[2]))
+        elif k == 'illegal':
+            illegal.append(r)
+        elif k == 'seq':
+            seqs.append(r)
+        elif k == 'dump':
+            dump = r
+    n = len(reqs)
+    if n == 0 or dump is None:
+        return out
+    for r in illegal:
+        out.append(fail('C03: transactions are exclusive (a transaction began while another was open)', r, r.lhs))
+    sig, names, extra = _state_sig(dump.impl)
+    # the three "in particular" clauses
+    for t in range(n):
+        o = res.get(t)
+        st = o.get('status') if o else None
+        if st == 'panic' or (isinstance(st, int) and st >= 500):
+            out.append(fail('C03: no request is answered with a server error merely because another request overlapped it', reqs[t][1], f'thread {t} ({reqs[t][0]}) answered {st}; trace: ' + ' '.join(f'{a}:{b}' for a, b in evs)[:600]))
+    if extra.get('double'):
+        out.append(fail('C03: two overlapping AddVersion requests are never both accepted on the same parent', dump, f'parents with two children: {extra["double"]}'))
+    for t in range(n):
+        o = res.get(t)
+        if reqs[t][0] == 'av' and o and o.get('status') == 200 and o.get('vid') not in extra.get('chain', []):
+            out.append(fail('C03: no accepted version is orphaned', reqs[t][1], f'thread {t} was told 200 with version {o.get("vid")} which is not on the chain of the latest version'))
+    # linearizability against the implementation's own sequential runs
+    start = {}; fin = {}
+    for i, (t, lab) in enumerate(evs):
+        if lab == 'start': start[t] = i
+        if lab == 'finish': fin[t] = i
+    def admissible(perm):
+        pos = {t: k for k, t in enumerate(perm)}
+        for a in range(n):
+            for b in range(n):
+                if a != b and a in fin and b in start and fin[a] < start[b] and pos[a] > pos[b]:
+                    return False
+        return True
+    conc = [_canon_resp(reqs[t][0], res.get(t), names) for t in range(n)]
+    ok = relaxed_ok = False
+    tried = []
+    for r in seqs:
+        parts = r.lhs.split(' | ')
+        perm = [int(x) for x in parts[0].split()[1].split(',')]
+        if not admissible(perm):
+            continue
+        obs = [parse_http_obs(x.replace(';', ' ')) for x in parts[1].split(' ')]
+        ssig, snames, _ = _state_sig(parts[2])
+        sres = [_canon_resp(reqs[t][0], obs[t], snames) for t in range(n)]
+        tried.append((perm, sres, ssig))
+        if sres == conc and ssig == sig:
+            ok = True
+        relax = lambda rs: [(('as', 'any') if reqs[t][0] == 'as' and x[0] in (200, 404) else x) for t, x in enumerate(rs)]
+        if relax(sres) == relax(conc) and ssig == sig:
+            relaxed_ok = True
+    if not ok and not out:
+        det = f'concurrent answers {conc} state {sig}; sequential orders tried: ' + ' || '.join(f'{p}:{a} state {s}' for p, a, s in tried)
+        f = fail('C03: each request completes with a response that some one-at-a-time ordering (respecting real-time order) would have produced, and leaves the state that ordering would leave', first, det[:1500])
+        if relaxed_ok and any(reqs[t][0] == 'as' for t in range(n)) and run.kv.get('prefill') == '0':
+            f['detail'] = 'F3-shape (AddSnapshot answered 200 between the client-creation transaction of a concurrent AddVersion and the first accepted version): ' + f['detail']
+        out.append(f)
+    return out
